@@ -25,7 +25,7 @@ def main():
     proof_broken = None
 
     # ---- 1. proof obligations
-    ok, log = hl.build_coq(["Check.vo", f"{P.COQ_MODULE}.vo"])
+    ok, log = hl.build_coq(["Check.vo", f"{P.COQ_MODULE}.vo"] + [f"{m}.vo" for m in P.CASE_MODULES])
     bad = hl.scan_forbidden()
     assum = None
     if not ok:
